@@ -60,6 +60,10 @@ pub struct HistoryParams {
     pub force_public_handshake: bool,
     /// one in five by-reference Adds carries an expired key package that every committer has to drop
     pub doomed_adds: bool,
+    /// commits may carry a "kick" custom proposal that the application's rules expand into a local Remove
+    pub kicks: bool,
+    /// half of the worlds publish key packages that live for 30 days of the fake clock (long over on the real one)
+    pub short_key_package_lifetimes: bool,
 }
 
 impl HistoryParams {
@@ -75,6 +79,8 @@ impl HistoryParams {
             external_sender: false,
             force_public_handshake: false,
             doomed_adds: true,
+            kicks: false,
+            short_key_package_lifetimes: false,
         }
     }
 }
@@ -177,6 +183,9 @@ pub fn world_cfg_from_case(case: &Case, hp: &HistoryParams) -> WorldCfg {
     if hp.force_public_handshake {
         cfg.encrypt_handshake = false;
         cfg.vary_options = false;
+    }
+    if hp.short_key_package_lifetimes && bits & 128 != 0 {
+        cfg.kp_lifetime = 30 * 86400;
     }
     cfg
 }
@@ -571,6 +580,12 @@ impl<'a> History<'a> {
                             spec.remove.push(self.w.parties[t2].leaf());
                         }
                     }
+                }
+                if self.hp.kicks && flags & 8 == 0 && flags & 0x2000 != 0 && members.len() > 2 {
+                    // removal through the application's rules: a custom proposal that every member expands into a local Remove
+                    let others: Vec<usize> = members.iter().copied().filter(|m| *m != a).collect();
+                    let t = others[pick(op[3], others.len())];
+                    spec.kick = Some((self.w.parties[t].leaf(), flags & 0x4000 != 0));
                 }
                 if flags & 0x10 != 0 {
                     spec.external_psks.push(vec![b'p', b's', b'k', (op[3] % 3) as u8]);
